@@ -49,7 +49,8 @@ prop("C03", "translation_validation", "translation validation of derive output o
      "language definition k's writer produces (= the timeline model), initialises retained fields from reads of their historical type, "
      "removed fields by read-and-discard, added fields by exactly the documented default and converted fields through the documented conversion.",
      "Rules H1 (histories × version pairs), W5, W6 on the corpus; F2 (version origin) via W4; W10b (the recursion-guard levels of every library "
-     "WithSchema impl equal the frozen format: a schema stored by an older build still matches), X5.",
+     "WithSchema impl equal the frozen format: a schema stored by an older build still matches), X5, H3 (a field with two conversions of one stored "
+     "type is read through each, under its own version test), P2 (no type is bulk-copyable at a version whose wire layout differs from memory).",
      ["histories outside the enumerated scripts and the values produced by user conversion/default functions are not decided"],
      "bounded by the corpus: scripts of ≤2 edits (quick) / ≤3 (thorough), all positions", "DESIGN.md §3 C03")
 
@@ -137,7 +138,7 @@ prop("C13", "other", "writer⊆reader containment for the schema node types + re
      "diff_schema reports differences only from comparisons of corresponding paths (Q2), compares every wire-relevant fact and takes no "
      "accepting shortcut past a comparison (Q1).",
      "Rules W1 (schema types), W8 (spec/format0_spec.json, 12 readers), W8d (values of the format-0-absent fields at file_version 0), W15 (flag bits), W2, Q1 (incl. no arm "
-     "that matches different variants on the two sides), Q2, X5 (reading a schema leaves no thread-wide state behind). Known finding: Undefined vs Undefined reports a difference by design.",
+     "that matches different variants on the two sides), Q2, W19 (independent flags are written independently), X5 (reading a schema leaves no thread-wide state behind). Known finding: Undefined vs Undefined reports a difference by design.",
      ["format 0 has no independent reference in the repository: spec/format0_spec.json was frozen from the pinned tree and reviewed by "
       "hand against the version gates (offset, size, alignment, discriminant_size, has_explicit_repr, string/vector layout byte)"],
      "shape agreement and comparison tables", "DESIGN.md §3 C13")
@@ -163,7 +164,7 @@ prop("C15", "other", "static comparison-table extraction for the ledger comparis
      "argument are all those of the loop's version, and the loop covers 0..=latest), I7 (the result of a per-version check is not overwritten by "
      "a later one), W15 (the Send/Sync/Unpin flag byte of a recorded future type is decoded with the masks it was encoded with), Q4b (nested "
      "interfaces - closure, trait-object and future arguments - are compared on argument count, argument schemas and return schema), Q1 "
-     "(diff_schema, which the ledger relies on for every type), N8 (generated get_definition(version) describes nested interfaces and "
+     "(diff_schema, which the ledger relies on for every type), W19 (the Send / Sync bounds of a stored definition are written independently), N8 (generated get_definition(version) describes nested interfaces and "
      "argument types at `version`).",
      ["file-system behaviour is not decided"],
      "completeness of the ledger comparison", "DESIGN.md §3 C15")
@@ -174,7 +175,8 @@ prop("C16", "other", "static lock-order / held-lock effect analysis over the res
      "their callbacks and in-image handlers acquire no cache lock, and no RegularCall is issued under a lock (L2).",
      "Rules L1, L2, L3, L5 (no check-then-act across two critical sections), L4 (condition variables, if any: state changed under the waited-on mutex is followed by a notify - no lost "
      "wake-up), L6 (a parameter matched against an atomic static is matched again under the lock the cached value is taken from), N9 "
-     "(wake-ups cross the ABI boundary unconditionally), X2 (AbiConnection<T> is Send/Sync only if T is).",
+     "(wake-ups cross the ABI boundary unconditionally), L7 (two cells that are read together are written together), N10 (the declared Send / Sync "
+     "bounds of an interface and of closure arguments reach the run-time definition that the connection-time bound check reads), X2 (AbiConnection<T> is Send/Sync only if T is).",
      ["'same results as sequential execution' (linearizability) is not decided", "user constructors run under CreateInstance execute in the plugin image with its own statics"],
      "necessary conditions for deadlock freedom", "DESIGN.md §3 C16")
 
@@ -186,7 +188,8 @@ prop("C17", "other", "static classification of introspect_child / introspect_len
      "keyvals[index - cursor on entry - advance of the expanded sub-tree] (S3).",
      "Rules S1 (411 impls; containers, state-dependent None), S3 (16 obligations: conservation, element index, no underflow by induction on "
      "index >= cursor, no overflow of sums involving the caller's index), S4 (every unwrap in dive / do_introspect / total_index is justified by a typestate argument: "
-     "take-once guard, push before last/pop).",
+     "take-once guard, push before last/pop), S5 (the default introspect_len is the linear probe), S6 (no Introspect impl contains an untriaged "
+     "panicking construct), S7 (sibling maps / sets compute their child count by the same expression).",
      ["index arithmetic and slice indexing in the navigation code (no underflow / in bounds) rest on data-structure invariants across calls and are not decided"],
      "child-count consistency and flat-index accounting", "DESIGN.md §3 C17")
 
